@@ -91,6 +91,8 @@ func checkC02(r *Run) propMeta {
 	checkSetBeforeToggle(r, cg)
 	checkReversalSeesEarlierParts(r, op, cg)
 	checkWithCarryReadsAlias(r, op, cg)
+	checkClauseSymbolsAlwaysDeclared(r, op)
+	checkModelBoundsNotOverridden(r, op, r.MustPkg("cypher/models/pgsql/translate"))
 	r.Floor("C02-R1-guard-slice", 12)
 	return meta
 }
